@@ -224,7 +224,29 @@ def check_C01(tier, seed):
             c.eval('(f %d 0)' % nn); c.vars(['n', 'acc', 'm', 'k', 'g'])
         cases.append(c)
     stats['recursive_definitions'] = nrec
+    # scope of the binding forms: the initial-value / list / count expression of a binder is evaluated in the scope OUTSIDE the
+    # binding it initialises, also when it reads a variable of the same name (directly or through a function)
+    scope = [("(let ((x '(1 2 3)) (sum 0)) (dolist (x x sum) (setq sum (+ sum (tick 1 x)))))", '6'), ("(let ((x '(0 1 2))) (dolist (x (cdr x)) (tick 1 x)) x)", '(0 1 2)'),
+             ("(let ((i 3) (acc nil)) (dotimes (i i) (setq acc (cons (tick 1 i) acc))) (list acc i))", '((2 1 0) 3)'), ("(let ((i 2)) (dotimes (i (+ i 1) i) (tick 1 i)))", '3'),
+             ("(setq items '(a b)) (defun get-items () items) (let ((r nil)) (dolist (items (get-items)) (setq r (cons (tick 1 items) r))) (list r items))", '((b a) (a b))'),
+             ("(setq cnt 2) (defun get-cnt () cnt) (let ((r 0)) (dotimes (cnt (get-cnt)) (setq r (+ r 10 (tick 1 cnt)))) (list r cnt))", '(21 2)'),
+             ("(setq x 5) (let* ((x (+ x 1)) (y (* x 2))) (list x y))", '(6 12)'), ("(setq x 5) (defun rd () x) (let ((x (+ (rd) 1))) (list x (rd)))", '(6 6)'),
+             ("(setq v 1) (defun f (v) (list v (g))) (defun g () v) (list (f (+ v 1)) v)", '((2 2) 1)'), ("(setq l '(1 2)) (dolist (e l) (setq l (cons e l))) l", '(2 1 1 2)'),
+             ("(let ((n 3) (out nil)) (dotimes (k n) (setq n 10) (setq out (cons k out))) (list out n))", '((2 1 0) 10)'),
+             ("(setq x '(1 2)) (funcall (lambda (x) (dolist (x x) (tick 1 x)) x) '(7 8))", '(7 8)'),
+             ("(let ((x 1)) (when-let ((x (+ x 1)) (y (+ x 1))) (list x y)))", '(2 3)'), ("(let ((x 1)) (if-let* ((x (+ x 1)) (y (+ x 1))) (list x y)))", '(2 3)')]
+    sc_cases = []
+    for j, (text, want) in enumerate(scope):
+        c = Case('sc%d' % j, meta={'texts': [text]}); c.eval(text); c.vars(['x', 'i', 'items', 'cnt', 'l', 'v'])
+        cases.append(c); sc_cases.append((c, text, want))
     impl, model, dis = differential(res, cases)
+    for c, text, want in sc_cases:
+        ls = impl.get(c.cid, [])
+        got = None
+        if ls:
+            _, kind_, payload_, _ = core.parse_line(ls[0]); got = unhx(payload_) if kind_ == 'V' else kind_
+        if got != want:
+            res.violation('scope', {'program': text, 'expected': want, 'got': got, 'why': 'the initial-value / list / count expression of a binding form is not evaluated in the scope outside that binding'})
     nontriv = set()
     for c in cases:
         for l in impl.get(c.cid, []):
